@@ -663,7 +663,21 @@ class Interp:
             self.note(fr, "assignment to unmodelled place", e)
         else:
             self.write_place(pl, v, env)
+            if self.through_refcell(e["l"]):
+                fr.out.effects.append((env["$pc"], "lazy_store", (v,), {"sp": e.get("sp"), "fn": fr.path}))
         return (UNIT, env)
+
+    def through_refcell(self, e):
+        while isinstance(e, dict):
+            if e.get("k") == "MethodCall" and e.get("name") == "borrow_mut":
+                return True
+            if e.get("k") in ("Unary", "Paren", "AddrOf"):
+                e = e.get("x")
+            elif e.get("k") in ("Field", "Index"):
+                e = e.get("base")
+            else:
+                return False
+        return False
 
     def x_AssignOp(self, e, env, fr):
         r = self.exprs([e["l"], e["r"]], env, fr)
@@ -1083,6 +1097,8 @@ class Interp:
         if fv.op == "ctor":
             r = {"res": "Def", "dk": fv.args[1], "callee": {"path": fv.args[0]}}
             return (self.ctor(r, args, e, env, fr), env)
+        if fv.op == "const_closure":
+            return (variant("Ok", fv.args[0]), env)
         return (mk("apply", fv, *args), env)
 
     def x_MethodCall(self, e, env, fr):
